@@ -669,6 +669,10 @@ def gen_line(rnd, flavour=None, tick=None, fields=None):
     elif f == "events":
         k = rnd.random()
         x = rnd.choice(TEXTS)
+        if rnd.random() < 0.4:
+            # composed text: words, inner quotes and irregular white space in any arrangement (seeded C09e
+            # collapses white space in what a quote-parity split takes for the unquoted parts of the line)
+            x = "".join(rnd.choice(["oh", "no", "12", "Caf\u00e9", '"', '"', " ", " ", "  ", "\t", "\u00a0", "=", "E"]) for _ in range(rnd.randrange(1, 8)))
         body = 'E "' + (("lyric " + x) if k < 0.35 else (("section " + x) if k < 0.65 else (x if k < 0.9 else rnd.choice(["lyric" + x, "section" + x, "Lyric " + x])))) + '"'
     elif f == "song":
         fld = rnd.choice(fields or FIELDS)
@@ -707,6 +711,18 @@ def gen(shape, rnd, depth=0):
         return gen_lines(rnd)
     if isinstance(shape, StrS) and rnd.random() < 0.6:
         return gen_line(rnd)
+    if isinstance(shape, SeqS) and isinstance(shape.elem, RecS) and shape.elem.key == "chartparse.sync:BPMEvent.ParsedData" and rnd.random() < 0.6:
+        # the tempo lines of one section: few distinct tempo values (so that a line RESTATES the tempo in
+        # effect), ticks mostly increasing, sometimes equal or out of order (seeded C11e accepts an
+        # out-of-order line after a restated tempo)
+        import chartparse.chart  # noqa
+        from chartparse.sync import BPMEvent
+        pool = rnd.sample([120000, 60000, 90000, 0, 147253], 2)
+        out, tick = [], rnd.choice([0, 0, 0, 5])
+        for _ in range(rnd.choice([0, 1, 2, 3, 4, 5])):
+            out.append(BPMEvent.ParsedData(tick=tick, raw_bpm=str(rnd.choice(pool))))
+            tick = max(0, tick + rnd.choice([96, 384, 384, 1, 0, -96, -384]))
+        return out
     if isinstance(shape, IntS):
         return rnd.choice(POOL_INT) if rnd.random() < 0.8 else rnd.randrange(0, 2000)
     if isinstance(shape, BoolS):
